@@ -52,7 +52,7 @@ def core_schema():
     # per-node risk bookkeeping of UpdateRisk for the algo's own measure (C20): hasattr(node,'risk'), measure in node.risk, node.risk[measure], hasattr(node,'risks')
     s.declare(risk_has="bool", risk_m_has="bool", risk_m="float", risks_has="bool")
     s.declare(_last_chk="optdate", _funiverse_hi="date")
-    s.declare(_sweights="optdict")
+    s.declare(_sweights="optdict", sel_n_opt="optfloat")
     s.declare(_weights="optdict", _days_left="optfloat", rot_n="float", _rb="ref:Rebalance")
     # Backtest
     s.declare(strategy="ref:StrategyBase", additional_data="opaque", initial_capital="float", progress_bar="bool", stats="opaque", _original_prices="opaque",
